@@ -3,7 +3,7 @@ use crate::engine::Out;
 use crate::factory::{self, *};
 use crate::report::Report;
 use crate::util::{classify_refusal, fp64, guarded, Refusal};
-use crate::world::{net_req, WorldCfg};
+use crate::world::WorldCfg;
 use bitcoin::absolute::LockTime;
 use bitcoin::transaction::Version;
 use bitcoin::{Amount, OutPoint, ScriptBuf, Sequence, Transaction, TxIn, TxOut, Witness};
@@ -314,10 +314,10 @@ fn mutations(base: &[u8], quick: bool) -> Vec<Vec<u8>> {
     v
 }
 
-fn send(payload: &[u8], net: Network) -> Result<Result<(), SendTransactionError>, String> {
+fn send(payload: &[u8], net: Network, lower: bool) -> Result<Result<(), SendTransactionError>, String> {
     let req = SendTransactionRequest {
         transaction: payload.to_vec(),
-        network: net_req(net),
+        network: crate::world::net_req_spelled(net, lower),
     };
     guarded(|| {
         let mut fut = Box::pin(ic_btc_canister::send_transaction(req));
@@ -380,7 +380,15 @@ pub fn run(tier: &str) -> i32 {
                     let mut seen: HashSet<u64> = HashSet::new();
                     for (name, base) in bases.iter() {
                         for payload in mutations(base, quick) {
-                            for rn in [Network::Mainnet, Network::Testnet, Network::Regtest] {
+                            for (rn, lower) in [(Network::Mainnet, false), (Network::Testnet, false), (Network::Regtest, false), (Network::Mainnet, true), (Network::Testnet, true), (Network::Regtest, true)] {
+                                // the lower-case spellings of the request-side network type: on every
+                                // base transaction and a fifth of the mutations
+                                if lower && payload != *base && payload.len() % 5 != 0 {
+                                    continue;
+                                }
+                                if lower {
+                                    out.count("calls_with_the_lower_case_network_spelling");
+                                }
                                 if !access && rn != cn && payload.len() % 7 != 0 {
                                     continue; // both guards at once: sampled thinly, same verdict
                                 }
@@ -390,13 +398,13 @@ pub fn run(tier: &str) -> i32 {
                                 let well_formed = strict == Strict::WellFormed && rt_ok;
                                 let _ = rt::take_sent_transactions();
                                 let c0 = counter();
-                                let r = send(&payload, rn);
+                                let r = send(&payload, rn, lower);
                                 let sent = rt::take_sent_transactions();
                                 let c1 = counter();
                                 out.states += 1;
                                 seen.insert(fp64(&payload));
                                 let hist = || json!({"base": name, "payload": hex::encode(&payload), "canister_network": cn.to_string(),
-                                    "requested_network": rn.to_string(), "api_access": access, "canister_behind_announced_headers": unsynced, "custom_blocks_source": custom_source});
+                                    "requested_network": rn.to_string(), "lower_case_spelling": lower, "api_access": access, "canister_behind_announced_headers": unsynced, "custom_blocks_source": custom_source});
                                 let expect_refusal = !access || rn != cn;
                                 match r {
                                     Err(p) => {
@@ -483,7 +491,7 @@ pub fn run(tier: &str) -> i32 {
     rep.evaluations = rep.out.states;
     rep.out.samples.push(json!({"base": bases[3].0, "payload": hex::encode(&bases[3].1), "mutation": "every truncation / 1-byte extension (256 values) / 2- and 33-byte extension / doubled / leading byte / every single-bit flip / marker-flag edge cases"}));
     rep.out.samples.push(json!({"bases": bases.iter().map(|b| b.0).collect::<Vec<_>>() }));
-    rep.rule = "12 base transactions (legacy/segwit, 0-3 inputs and outputs, empty and long scripts, witnesses with 0/1/2 items, extreme version/locktime/value) and 29 with field values at the edges of their types (all pairs of output amounts over {0, 1, 2^63, max-1, max}, sums that overflow, 253 inputs / outputs, 300 outputs) x every truncation, every 1-byte extension, 2- and 33-byte extensions, duplication, leading byte, every single-bit flip, marker/flag edge cases x api_access x requested network x canister network; distinct = distinct payload bytes; a payload is decided when an independent strict parser (Core's rules, exact consumption) and the exact round trip agree".into();
+    rep.rule = "12 base transactions (legacy/segwit, 0-3 inputs and outputs, empty and long scripts, witnesses with 0/1/2 items, extreme version/locktime/value) and 29 with field values at the edges of their types (all pairs of output amounts over {0, 1, 2^63, max-1, max}, sums that overflow, 253 inputs / outputs, 300 outputs) x every truncation, every 1-byte extension, 2- and 33-byte extensions, duplication, leading byte, every single-bit flip, marker/flag edge cases x api_access x requested network (both spellings of the request-side type) x canister network; distinct = distinct payload bytes; a payload is decided when an independent strict parser (Core's rules, exact consumption) and the exact round trip agree".into();
     rep.bounds = json!({"tier": tier, "bases": bases.len()});
     rep.assume("payloads on which the two reference readings disagree are counted as undecided and not judged");
     rep.assume("the inter-canister call itself is the native mock (records the request, replies at once)");
@@ -491,6 +499,7 @@ pub fn run(tier: &str) -> i32 {
     rep.floor("refused_malformed", 10_000);
     rep.floor("guard_refusals", 10_000);
     rep.floor("unsynced_canister_variants", 1);
+    rep.floor("calls_with_the_lower_case_network_spelling", 1000);
     let _ = factory::REGTEST_BITS;
     rep.finish()
 }
